@@ -141,6 +141,8 @@ func C13(c *run.Ctx) {
 								}
 								if nl > 0 {
 									q.Set("nonce", nonce)
+								} else if (sl+len(rt)+len(mode))%2 == 0 {
+									q.Set("nonce", "") // the parameter is present and empty
 								}
 								// ---- rule table (from the statement)
 								var broken []string
